@@ -14,15 +14,30 @@ ASSUME = ["probes are GLOBAL <module> <name> STOP pickles: permitted = the load 
           "ML_ALLOWLIST is restored from a deep snapshot between histories (and the restore is verified)"]
 
 
-def child(ctx, hists, name):
-    pj, outp = os.path.join(ctx.tmp, name + "_in.json"), os.path.join(ctx.tmp, name + "_out.json")
-    json.dump(hists, open(pj, "w"))
+def child(ctx, hists, name, procs=8):
+    """replay in dedicated child processes (the histories are independent: chunks run in parallel)"""
+    n = max(1, min(procs, len(hists) // 200 + 1))
+    size = (len(hists) + n - 1) // n
     env = dict(os.environ, PYTHONPATH=os.pathsep.join([ROOT] + ([os.environ["VERIF_REPO"]] if os.environ.get("VERIF_REPO") else [])))
-    r = subprocess.run([sys.executable, "-m", "harness.c11child", pj, outp], cwd=ROOT, env=env,
-                       capture_output=True, text=True, timeout=3000)
-    if r.returncode != 0:
-        raise MachineryError("c11child failed: " + (r.stderr or r.stdout)[-600:])
-    return json.load(open(outp))
+    jobs = []
+    for k in range(n):
+        part = hists[k * size:(k + 1) * size]
+        if not part:
+            continue
+        pj, outp = os.path.join(ctx.tmp, f"{name}_{k}_in.json"), os.path.join(ctx.tmp, f"{name}_{k}_out.json")
+        json.dump(part, open(pj, "w"))
+        jobs.append((outp, subprocess.Popen([sys.executable, "-m", "harness.c11child", pj, outp], cwd=ROOT, env=env,
+                                            stdout=subprocess.PIPE, stderr=subprocess.STDOUT, text=True)))
+    out = []
+    for outp, pr in jobs:
+        o, _ = pr.communicate(timeout=6000)
+        if pr.returncode != 0:
+            raise MachineryError("c11child failed: " + (o or "")[-600:])
+        out.extend(json.load(open(outp)))
+        os.remove(outp)
+    for i, r in enumerate(out):
+        r["id"] = i
+    return out
 
 
 def cfg(maxlen, shallow, emit):
